@@ -814,3 +814,104 @@ Proof.
   rewrite Hr, Hr2. split; [|cbn [snd]; destruct (length (u_items u1)); reflexivity].
   rewrite <- (u_items_length_sk u1 u2 Hsk). f_equal. rewrite !u_put_as_sel. apply leaf_absorb; assumption.
 Qed.
+
+Lemma MUni_inj a b : MUni a = MUni b -> a = b.
+Proof. intros H. injection H as ->. reflexivity. Qed.
+Lemma MBi_inj a b : MBi a = MBi b -> a = b.
+Proof. intros H. injection H as ->. reflexivity. Qed.
+Lemma MMid_inj a b : MMid a = MMid b -> a = b.
+Proof. intros H. injection H as ->. reflexivity. Qed.
+
+Lemma after_given_uni R (lik : model -> R) np u gs : exists u1, after_given R lik np (MUni u) gs = MUni u1 /\ sk_uni u1 = sk_uni u.
+Proof.
+  pose proof (config_preserved R lik np (MUni u) gs) as H. unfold same_config in H.
+  destruct (after_given R lik np (MUni u) gs) as [u1|b|ml|h]; cbn [sk_model] in H; try discriminate.
+  apply MUni_inj in H. exists u1. split; [reflexivity | exact H].
+Qed.
+
+Theorem uni_rejected_then_valid : C12_uni_rejected_then_valid_stmt.
+Proof.
+  intros R lik u u0 gs v g H Hcfg Hl Hacc Hg.
+  destruct (after_given_uni R lik None u gs) as (u1 & -> & Hsk1).
+  unfold same_config in Hcfg. cbn [sk_model] in Hcfg. apply MUni_inj in Hcfg. rename Hcfg into Hsk0.
+  assert (H1 : u_names_ok u1 = true) by (rewrite (u_names_ok_sk u1 u Hsk1); exact H).
+  assert (H0 : u_names_ok u0 = true) by (rewrite <- (u_names_ok_sk u u0 Hsk0); exact H).
+  assert (Hn1 : u_names u1 = u_names u) by (apply u_names_sk, Hsk1).
+  assert (Hn0 : u_names u0 = u_names u) by (symmetry; apply u_names_sk, Hsk0).
+  assert (Hlen : length (vals v) = length (u_names u)) by (rewrite vals_length, u_names_length; exact Hl).
+  rewrite (likelihood_both_forms R lik None (MUni u1) (u_names u) (vals v) g);
+    [| unfold named_params; rewrite (param_names_uni u1 H1), Hn1; reflexivity | apply u_names_NoDup, H | exact Hlen | exact Hg].
+  rewrite (likelihood_both_forms R lik None (MUni u0) (u_names u) (vals v) g);
+    [| unfold named_params; rewrite (param_names_uni u0 H0), Hn0; reflexivity | apply u_names_NoDup, H | exact Hlen | exact Hg].
+  cbn [set_params]. fold (kw_of (u_names u) v).
+  assert (Habs : u_set_params u1 [] (kw_of (u_names u) v) = u_set_params u0 [] (kw_of (u_names u) v)).
+  { rewrite <- Hn1. apply (uni_full_assignment_absorbing u1 u0 v H1).
+    - rewrite Hsk1. exact Hsk0.
+    - rewrite (u_items_length_sk u1 u Hsk1). exact Hl.
+    - rewrite (u_accepts_sk u1 u _ Hsk1). exact Hacc. }
+  rewrite Habs. reflexivity.
+Qed.
+
+(** * Distributions: a failed update restores; validity is an invariant *)
+Theorem failed_dist_update_restores : C12_failed_dist_update_restores_stmt.
+Proof.
+  intros maxt d a kw. destruct d as [p|f kws]; [reflexivity|]. cbn [dist_set_params].
+  destruct (dist_assign kws a kw) as [new a']. destruct (all_vals new) as [kws'|]; [|reflexivity].
+  destruct (fam_weights f maxt kws'); [discriminate | reflexivity].
+Qed.
+Lemma dist_set_valid maxt d a kw : dist_valid maxt d = true -> dist_valid maxt (fst (dist_set_params maxt d a kw)) = true.
+Proof.
+  intros H. destruct d as [p|f kws]; [exact H|]. cbn [dist_set_params].
+  destruct (dist_assign kws a kw) as [new a']. destruct (all_vals new) as [kws'|]; [|exact H].
+  destruct (fam_weights f maxt kws') eqn:E; [|exact H]. cbn [fst dist_valid]. rewrite E. reflexivity.
+Qed.
+Lemma set_dists_for_valid maxt split glob ds : forall a,
+  forallb (fun td => dist_valid maxt (snd td)) ds = true ->
+  forallb (fun td => dist_valid maxt (snd td)) (fst (set_dists_for maxt split glob ds a)) = true.
+Proof.
+  induction ds as [|[t d] r IH]; intros a H; [reflexivity|]. cbn [forallb snd] in H. apply andb_true_iff in H. destruct H as [Hd Hr].
+  cbn [set_dists_for]. destruct d as [p|f kws].
+  - specialize (IH a Hr). destruct (set_dists_for maxt split glob r a) as [r' o]. cbn [fst forallb snd] in *. rewrite IH. reflexivity.
+  - pose proof (dist_set_valid maxt (Param f kws) a (obj_kwargs t split glob) Hd) as Hv.
+    destruct (dist_set_params maxt (Param f kws) a (obj_kwargs t split glob)) as [d' [a'|]]; cbn [fst] in Hv.
+    + specialize (IH a' Hr). destruct (set_dists_for maxt split glob r a') as [r' o]. cbn [fst forallb snd] in *. rewrite Hv, IH. reflexivity.
+    + cbn [fst forallb snd]. rewrite Hv, Hr. reflexivity.
+Qed.
+Lemma u_set_dist_valid u a kw : u_dists_valid u = true -> u_dists_valid (fst (u_set_distribution_params u a kw)) = true.
+Proof.
+  intros H. unfold u_set_distribution_params. destruct (unflatten_and_split kw _) as [split glob].
+  pose proof (set_dists_for_valid (u_maxt u) split glob (u_dists u) a H) as Hv.
+  destruct (set_dists_for _ _ _ _ _) as [ds o]. exact Hv.
+Qed.
+Lemma u_graph_set_dists sel u a kw :
+  u_dists (fst (lift_graph u (graph_set_params_sel sel (u_graph u) a kw))) = u_dists u
+  /\ u_maxt (fst (lift_graph u (graph_set_params_sel sel (u_graph u) a kw))) = u_maxt u.
+Proof. split; reflexivity. Qed.
+Theorem leaf_dists_stay_valid : C12_leaf_dists_stay_valid_stmt.
+Proof.
+  intros u a kw H. split; [apply u_set_dist_valid, H|].
+  unfold u_set_params. apply (andthen_fst (fun s => u_dists_valid s = true)).
+  - unfold u_set_spread_params. apply (andthen_fst (fun s => u_dists_valid s = true)); [exact H|]. intros s a' Hs. exact Hs.
+  - intros s a' Hs. apply u_set_dist_valid, Hs.
+Qed.
+
+(** * named_params declared as a literal subset of the names *)
+Lemma in_combine_vals {A} (names : list A) : forall v k q, In (k, q) (combine names v) -> In (k, V q) (combine names (vals v)).
+Proof.
+  induction names as [|n names IH]; intros [|x v] k q H; cbn in *; try tauto.
+  destruct H as [[= <- <-]|H]; [left; reflexivity | right; apply IH, H].
+Qed.
+Theorem uni_named_subset_scored : C12_uni_named_subset_scored_stmt.
+Proof.
+  intros R lik u names v g H Hnd Hincl Hl Hg r. subst r.
+  rewrite (likelihood_both_forms R lik (Some names) (MUni u) names (vals v) g);
+    [| unfold named_params; rewrite (param_names_uni u H); reflexivity | exact Hnd | rewrite vals_length; exact Hl | exact Hg].
+  cbn [set_params fst snd].
+  destruct (u_set_params u [] (combine names (vals v))) as [u' o] eqn:E. cbn [fst snd]. destruct o as [rest|]; [right | left; reflexivity].
+  split; [reflexivity|]. intros k q Hin.
+  change (param_items (MUni u')) with (Some (u_got u')). cbn [option_map]. f_equal.
+  pose proof (uni_keyword_over_positional u [] (combine names (vals v)) k q H) as Hk. cbv zeta in Hk. rewrite E in Hk. cbn [fst snd] in Hk.
+  apply Hk; [apply Hincl; apply in_combine_l in Hin; exact Hin | | discriminate].
+  assert (Hnd' : NoDup (map fst (combine names (vals v)))) by (rewrite combine_keys by (rewrite vals_length; lia); exact Hnd).
+  rewrite kw_last_NoDup by exact Hnd'. apply kw_get_NoDup_In; [exact Hnd' | apply in_combine_vals, Hin].
+Qed.
